@@ -7,9 +7,12 @@ Oracle : verif.oracles.c10_subst.substitute — token-wise simultaneous substitu
 Cases  : verif.gen.c10_cases (collision-forcing producer names, equal names across stages, every declaration order,
          both spellings, wrappers, :output contents that look like references, literals that look like names).
 """
+import contextlib
 import itertools
 import json
 import os
+import shutil
+import tempfile
 
 from verif.core.runner import HarnessError, case_id
 from verif.gen import c10_cases as G
@@ -30,8 +33,9 @@ RULE = (
     'words colliding with names (`BA`, `stage0.BA/f.txt`, `-A`, `A.ref` ...) around the references; [methods] '
     'file:ref, stdout :output and a declared-but-unspelled :copy on every pair; [direct] `data/f.txt:ref|output` next '
     'to `Bdata/f.txt`. The thorough extension adds: the same families over all 8 names (*-ext), pairs with '
-    'independent wrappers (3x3) x both token orders x declared spelling {as used, absolute}, triples with every legal '
-    'spelling combination and one optional :output member, 4-token templates (p, key=q, --opt=p, literal), look-alike '
+    'independent wrappers (3x3) x both token orders (declared spelling as used; and always-absolute declarations with '
+    'bare tokens), triples with every legal spelling combination (all :ref) or with the first/last member an :output '
+    '(all absolute / relative where legal), 4-token templates (p, key=q, --opt=p, literal), look-alike '
     'contents in 3 forms for ref and output targets. Quick adds one of 128 hash-shards of that extension, selected by '
     'VERIF_SEED. Every case is a component a correct implementation accepts: every reference-like token in the '
     'arguments is a declared ref/output reference and every declared ref/output reference is used. A case is '
@@ -207,11 +211,27 @@ def build_doc(cases):
     return {'components': comps}, files
 
 
-def judge_cases(col, cases, on_fail):
-    """Instantiates one experiment hosting `cases` and judges every consumer. on_fail(case, why, observed, sig)."""
-    from verif.gen.pkg import scratch_dir, experiment_from_doc
+@contextlib.contextmanager
+def sub_scratch(parent):
+    """a scratch directory below the run-level one (which the parent process removes even if the pool is killed)"""
+    d = tempfile.mkdtemp(prefix='pkg-', dir=parent)
+    cwd = os.getcwd()
+    try:
+        yield d
+    finally:
+        try:
+            os.chdir(cwd)
+        except OSError:
+            os.chdir('/')
+        shutil.rmtree(d, ignore_errors=True)
+
+
+def judge_cases(col, cases, on_fail, ncore, parent_dir):
+    """Instantiates one experiment hosting `cases` and judges every consumer. on_fail(case, why, observed, sig).
+    The first `ncore` cases belong to the fixed core (separate counters, independent of VERIF_SEED)."""
+    from verif.gen.pkg import experiment_from_doc
     doc, files = build_doc(cases)
-    with scratch_dir('c10-') as d:
+    with sub_scratch(parent_dir) as d:
         try:
             exp = experiment_from_doc(doc, d, extra_files={'data/%s' % G.FILE: G.default_content(None, 'data', G.FILE)},
                                       validate=False)
@@ -230,7 +250,12 @@ def judge_cases(col, cases, on_fail):
         nodes = exp.experimentGraph.graph.nodes
         col.count('packages')
         for i, c in enumerate(cases):
+            before = (col.extra.get('failing_cases_total', 0), col.extra.get('collision_forcing_cases', 0))
             judge_one(col, c, nodes['stage%d.c%05d' % (G.CONSUMER_STAGE, i)]['componentSpecification'], inst, on_fail)
+            if i < ncore:
+                col.count('core_evaluated')
+                col.count('core_failing_cases', col.extra.get('failing_cases_total', 0) - before[0])
+                col.count('core_collision_forcing_cases', col.extra.get('collision_forcing_cases', 0) - before[1])
 
 
 def judge_one(col, c, spec, inst, on_fail):
@@ -265,10 +290,13 @@ def judge_one(col, c, spec, inst, on_fail):
     try:
         observed = spec.resolveArguments()
     except Exception as e:
-        col.outcome('FAIL/exception:%s' % type(e).__name__)
-        on_fail(c, 'resolveArguments raised %r for arguments %r with references %r' % (e, args, G.declared_strings(c)),
-                {'arguments': args, 'declared': G.declared_strings(c), 'exception': repr(e)[:300]},
-                'exception:%s' % type(e).__name__)
+        sig = 'exception:%s' % type(e).__name__
+        col.outcome('FAIL/%s' % sig)
+        col.count('failing_cases_total')
+        col.count('failing:%s' % sig)
+        text = repr(e).replace(inst, '<INST>')[:400]
+        on_fail(c, 'resolveArguments raised %s for arguments %r with references %r' % (text, args, G.declared_strings(c)),
+                {'arguments': args, 'declared': G.declared_strings(c), 'exception': text}, sig)
         return
     if observed == expected:
         col.outcome('exact/collision-forcing' if kinds else 'exact/no-collision')
@@ -290,16 +318,25 @@ def judge_one(col, c, spec, inst, on_fail):
                      'observed': norm(observed), 'explanation': [[i, k, norm(dd)] for i, k, dd in details]}, sig)
 
 
+def simplest_first(f):
+    return len(json.dumps(f['case'])), case_id(f['case'])
+
+
 def worker(col, item, tier, seed):
-    idx, fail_dir, cases = item
+    idx, fail_dir, cases, ncore = item
     kept = {}
 
     def on_fail(case, why, observed, sig):
         g = kept.setdefault('%s|%s' % (case['family'], sig), [])
-        if len(g) < KEEP_PER_GROUP:
-            g.append({'case': case, 'why': why, 'observed': observed, 'sig': sig})
+        g.append({'case': case, 'why': why, 'observed': observed, 'sig': sig})
+        if len(g) > 50:
+            g.sort(key=simplest_first)
+            del g[KEEP_PER_GROUP:]
 
-    judge_cases(col, cases, on_fail)
+    judge_cases(col, cases, on_fail, ncore, fail_dir)
+    for g in kept.values():
+        g.sort(key=simplest_first)
+        del g[KEEP_PER_GROUP:]
     if cases:
         col.sample({'arguments': G.render_arguments(cases[0]), 'declared': G.declared_strings(cases[0]),
                     'family': cases[0]['family']})
@@ -319,7 +356,8 @@ def run(ctx):
     allc = core + extra
     size = 800 if ctx.thorough else 400
     with scratch_dir('c10-run-') as fail_dir:
-        items = [(n, fail_dir, allc[i:i + size]) for n, i in enumerate(range(0, len(allc), size))]
+        items = [(n, fail_dir, allc[i:i + size], max(0, min(size, len(core) - i)))
+                 for n, i in enumerate(range(0, len(allc), size))]
         ctx.pmap('verif.props.c10', 'worker', items, maxtasksperchild=4)
         groups = {}
         for n in range(len(items)):
@@ -332,10 +370,11 @@ def run(ctx):
     if ctx.evaluations != len(allc):
         raise HarnessError('%d cases generated but %d judged' % (len(allc), ctx.evaluations))
     total = ctx.extra.get('failing_cases_total', 0)
+    kept = []
     for g in sorted(groups):
-        fl = sorted(groups[g], key=lambda f: (len(json.dumps(f['case'])), case_id(f['case'])))
-        for f in fl[:KEEP_PER_GROUP]:
-            ctx.fail(f['case'], f['why'], f['observed'], f['sig'])
+        kept.extend(sorted(groups[g], key=simplest_first)[:KEEP_PER_GROUP])
+    for f in sorted(kept, key=simplest_first):
+        ctx.fail(f['case'], f['why'], f['observed'], f['sig'])
     if total:
         ctx.note('%d failing cases in %d (family, failure-shape) groups; the %d shortest cases of every group are kept '
                  'for attribution/replay (every member of a group has the same shape by construction), totals per '
@@ -343,7 +382,9 @@ def run(ctx):
 
 
 def replay(ctx, case):
-    judge_cases(ctx, [case], lambda c, why, observed, sig: ctx.fail(c, why, observed, sig))
+    from verif.gen.pkg import scratch_dir
+    with scratch_dir('c10-replay-') as d:
+        judge_cases(ctx, [case], lambda c, why, observed, sig: ctx.fail(c, why, observed, sig), 0, d)
 
 
 # ------------------------------------------------------------------------------------------------- known-finding selectors
